@@ -22,6 +22,7 @@ func init() {
 }
 
 func runC31(c *eng.Ctx) {
+	defer runC31Skip(c)
 	p := c.P
 	H := "model/histogram:"
 	// ---- R1 Add / Sub ----
